@@ -188,11 +188,11 @@ func (fr *Frame) execAppend(ins ssa.CallInstruction, cc *ssa.CallCommon) Term {
 		}
 		// grow case: the fresh array's cells (never written before) hold prefix and new elements
 		newCell := lp.ptr(Term{"(pelem " + nb.S + " j)", SPtr})
-		c.assume(Term{fmt.Sprintf("(forall ((j Int)) (! (=> (and (<= 0 j) (< j %s)) (= (select %s %s) (select %s %s))) :pattern ((select %s %s))))",
+		fr.assumeHere(Term{fmt.Sprintf("(forall ((j Int)) (! (=> (and (<= 0 j) (< j %s)) (= (select %s %s) (select %s %s))) :pattern ((select %s %s))))",
 			oldLen.S, h.S, newCell.S, h.S, lp.ptr(Term{fmt.Sprintf("(pelem (sbase %s) (+ (soff %s) j))", s.S, s.S), SPtr}).S, h.S, newCell.S), SBool})
 		if static && k <= 8 {
 			for j := int64(0); j < k; j++ {
-				c.assume(Term{fmt.Sprintf("(= (select %s %s) %s)", h.S, lp.ptr(Term{fmt.Sprintf("(pelem %s (+ %s %d))", nb.S, oldLen.S, j), SPtr}).S, srcCell(fmt.Sprint(j))), SBool})
+				fr.assumeHere(Term{fmt.Sprintf("(= (select %s %s) %s)", h.S, lp.ptr(Term{fmt.Sprintf("(pelem %s (+ %s %d))", nb.S, oldLen.S, j), SPtr}).S, srcCell(fmt.Sprint(j))), SBool})
 			}
 			// in-place case: explicit stores
 			hi := h
@@ -203,7 +203,7 @@ func (fr *Frame) execAppend(ins ssa.CallInstruction, cc *ssa.CallCommon) Term {
 			c.setHeap(fr.st, srt, ite(inplace, hi, h))
 			continue
 		}
-		c.assume(Term{fmt.Sprintf("(forall ((j Int)) (! (=> (and (<= %s j) (< j %s)) (= (select %s %s) %s)) :pattern ((select %s %s))))",
+		fr.assumeHere(Term{fmt.Sprintf("(forall ((j Int)) (! (=> (and (<= %s j) (< j %s)) (= (select %s %s) %s)) :pattern ((select %s %s))))",
 			oldLen.S, newLen.S, h.S, newCell.S, srcCell(fmt.Sprintf("(- j %s)", oldLen.S)), h.S, newCell.S), SBool})
 		// in-place case: quantified update of the region [off+len, off+newLen)
 		nh := c.fresh(heapName(srt), h.Sort)
